@@ -175,38 +175,44 @@ Definition extract_words (s delims : text) : list text :=
 (* builtin.go: function bodies *)
 
 (* Word(env, text, args...) *)
+Definition word_finish (t : text) (index : Z) (delims : text) : res :=
+  let words := extract_words t delims in
+  let offset := if (index <? 0)%Z then (index + zlen words)%Z else index in
+  if negb ((0 <=? offset)%Z && (offset <? zlen words)%Z) then Ret VErr
+  else match go_index words offset with Some w => Ret (VText w) | None => Panic end.
+
 Definition word_body (t : text) (args : list value) : res :=
   with_arg args 0 (fun a0 =>
   do index <- to_integer a0;
-  let continue (delims : text) : res :=
-    let words := extract_words t delims in
-    let offset := if (index <? 0)%Z then (index + zlen words)%Z else index in
-    if negb ((0 <=? offset)%Z && (offset <? zlen words)%Z) then Ret VErr
-    else match go_index words offset with Some w => Ret (VText w) | None => Panic end in
   if Nat.eqb (length args) 2 then
-    with_arg args 1 (fun a1 => if is_nil a1 then continue [] else do d <- to_text a1; continue d)
-  else continue []).
+    with_arg args 1 (fun a1 => if is_nil a1 then word_finish t index []
+                               else do d <- to_text a1; word_finish t index d)
+  else word_finish t index []).
 
 (* WordSlice(env, text, args...) *)
+Definition word_slice_finish (t : text) (start end_ : Z) (delims : text) : res :=
+  let words := extract_words t delims in
+  if (zlen words <=? start)%Z then Ret (VText []) else
+  let end_ := if (zlen words <=? end_)%Z then zlen words else end_ in
+  if (0 <? end_)%Z then
+    match go_slice words start end_ with Some ws => Ret (VText (join_sp ws)) | None => Panic end
+  else
+    match go_slice_from words start with Some ws => Ret (VText (join_sp ws)) | None => Panic end.
+
+Definition word_slice_after_end (t : text) (args : list value) (start end_ : Z) : res :=
+  if ((0 <? end_)%Z && (end_ <=? start)%Z) then Ret VErr else
+  if Nat.leb 3 (length args) then
+    with_arg args 2 (fun a2 => if is_nil a2 then word_slice_finish t start end_ []
+                               else do d <- to_text a2; word_slice_finish t start end_ d)
+  else word_slice_finish t start end_ [].
+
 Definition word_slice_body (t : text) (args : list value) : res :=
   with_arg args 0 (fun a0 =>
   do start <- to_integer a0;
   if (start <? 0)%Z then Ret VErr else
-  let continue2 (end_ : Z) (delims : text) : res :=
-    let words := extract_words t delims in
-    if (zlen words <=? start)%Z then Ret (VText []) else
-    let end_ := if (zlen words <=? end_)%Z then zlen words else end_ in
-    if (0 <? end_)%Z then
-      match go_slice words start end_ with Some ws => Ret (VText (join_sp ws)) | None => Panic end
-    else
-      match go_slice_from words start with Some ws => Ret (VText (join_sp ws)) | None => Panic end in
-  let continue1 (end_ : Z) : res :=
-    if ((0 <? end_)%Z && (end_ <=? start)%Z) then Ret VErr else
-    if Nat.leb 3 (length args) then
-      with_arg args 2 (fun a2 => if is_nil a2 then continue2 end_ [] else do d <- to_text a2; continue2 end_ d)
-    else continue2 end_ [] in
-  if Nat.leb 2 (length args) then with_arg args 1 (fun a1 => do e <- to_integer a1; continue1 e)
-  else continue1 (-1)%Z).
+  if Nat.leb 2 (length args) then
+    with_arg args 1 (fun a1 => do e <- to_integer a1; word_slice_after_end t args start e)
+  else word_slice_after_end t args start (-1)%Z).
 
 (* Field(env, text, args...) *)
 Definition field_body (t : text) (args : list value) : res :=
@@ -221,19 +227,21 @@ Definition field_body (t : text) (args : list value) : res :=
   else match go_index fields field with Some f => Ret (VText (trim_space f)) | None => Panic end)).
 
 (* TextSlice(env, text, args...) *)
+Definition text_slice_finish (t : text) (start end_ : Z) : res :=
+  let length_ := zlen t in
+  let end_ := if (end_ <? 0)%Z then (length_ + end_)%Z else end_ in
+  (* the loop writes rune i when start <= i < end *)
+  let lo := Z.max 0 start in
+  let hi := Z.min length_ end_ in
+  Ret (VText (if (hi <=? lo)%Z then [] else firstn (Z.to_nat (hi - lo)) (skipn (Z.to_nat lo) t))).
+
 Definition text_slice_body (t : text) (args : list value) : res :=
   let length_ := zlen t in
   with_arg args 0 (fun a0 =>
   do start <- to_integer a0;
   let start := if (start <? 0)%Z then (length_ + start)%Z else start in
-  let continue (end_ : Z) : res :=
-    let end_ := if (end_ <? 0)%Z then (length_ + end_)%Z else end_ in
-    (* the loop writes rune i when start <= i < end *)
-    let lo := Z.max 0 start in
-    let hi := Z.min length_ end_ in
-    Ret (VText (if (hi <=? lo)%Z then [] else firstn (Z.to_nat (hi - lo)) (skipn (Z.to_nat lo) t))) in
-  if Nat.eqb (length args) 2 then with_arg args 1 (fun a1 => do e <- to_integer a1; continue e)
-  else continue length_).
+  if Nat.eqb (length args) 2 then with_arg args 1 (fun a1 => do e <- to_integer a1; text_slice_finish t start e)
+  else text_slice_finish t start length_).
 
 (* Char(env, num): ToInteger again on the number; string(rune(code)).  Go's conversion of an invalid code
    point (negative, surrogate, > 0x10FFFF) gives U+FFFD *)
@@ -316,15 +324,16 @@ Definition percent_body (d : dec) : res :=
   end.
 
 (* FormatNumber(env, args...); the formatted text itself is not reproduced *)
+Definition format_number_finish (args : list value) (num : dec) (places : Z) : res :=
+  if Nat.ltb 2 (length args) then with_arg args 2 (fun a2 => do human <- to_bool a2; Ret (VText []))
+  else Ret (VText []).
+
 Definition format_number_body (args : list value) : res :=
   with_arg args 0 (fun a0 => do num <- to_number a0;
-  let continue (places : Z) : res :=
-    if Nat.ltb 2 (length args) then with_arg args 2 (fun a2 => do human <- to_bool a2; Ret (VText []))
-    else Ret (VText []) in
   if Nat.ltb 1 (length args) then
     with_arg args 1 (fun a1 => do places <- to_integer a1;
-      if ((places <? 0) || (9 <? places))%Z then Ret VErr else continue places)
-  else continue (-1)%Z).
+      if ((places <? 0) || (9 <? places))%Z then Ret VErr else format_number_finish args num places)
+  else format_number_finish args num (-1)%Z).
 
 (* DateFromParts / TimeFromParts: dates.NewDate / NewTimeOfDay normalise, the value is opaque *)
 Definition date_from_parts_body (year month day : Z) : res :=
@@ -388,17 +397,18 @@ Definition extract_object_body (args : list value) : res :=
                              properties [])))).
 
 (* RegexMatch(env, text, args...) *)
+Definition regex_match_finish (t pattern : text) (group_num : Z) : res :=
+  match regex_submatch pattern t with
+  | None => Ret VErr
+  | Some groups =>
+      if ((group_num <? 0) || (zlen groups <=? group_num))%Z then Ret VErr
+      else match go_index groups group_num with Some g => Ret (VText g) | None => Panic end
+  end.
+
 Definition regex_match_body (t : text) (args : list value) : res :=
   with_arg args 0 (fun a0 => do pattern <- to_text a0;
-  let continue (group_num : Z) : res :=
-    match regex_submatch pattern t with
-    | None => Ret VErr
-    | Some groups =>
-        if ((group_num <? 0) || (zlen groups <=? group_num))%Z then Ret VErr
-        else match go_index groups group_num with Some g => Ret (VText g) | None => Panic end
-    end in
-  if Nat.eqb (length args) 2 then with_arg args 1 (fun a1 => do g <- to_integer a1; continue g)
-  else continue 0%Z).
+  if Nat.eqb (length args) 2 then with_arg args 1 (fun a1 => do g <- to_integer a1; regex_match_finish t pattern g)
+  else regex_match_finish t pattern 0%Z).
 
 (* HasGroup(env, args...): array.Get(i) for i < array.Count() *)
 Definition t_uuid : text := [117; 117; 105; 100]%N.
